@@ -253,6 +253,18 @@ func judgeID(c Case, w *vkit.W) {
 	out("DefaultFormatter(FormatURN)", string(b), urn)
 	out("String", id.String(), plain)
 	out("URN", id.URN(), urn)
+	for _, spare := range []int{0, 1, 8, 9, 35, 36, 37, 40, 44, 45, 46, 64} { // caller buffers of every interesting capacity
+		bp, err := uu.DefaultFormatter(make([]byte, 0, spare), id, 0)
+		if err != nil {
+			w.Fail(c, "formatter-error", err.Error())
+		}
+		out(fmt.Sprintf("DefaultFormatter(empty buffer with capacity %d, plain)", spare), string(bp), plain)
+		bu, err := uu.DefaultFormatter(append(make([]byte, 0, spare+2), "x="...), id, uu.FormatURN)
+		if err != nil {
+			w.Fail(c, "formatter-error", err.Error())
+		}
+		out(fmt.Sprintf("DefaultFormatter(\"x=\" with spare capacity %d, URN)", spare), string(bu), "x="+urn)
+	}
 	mt, err := id.MarshalText()
 	if err != nil {
 		w.Fail(c, "formatter-error", err.Error())
@@ -333,6 +345,9 @@ var rules = []int{0, int(uu.RuleDisableURN), int(uu.RuleDisableUpperCaseDigits),
 func TestCheck(t *testing.T) {
 	r := vkit.Start("C05")
 	defer r.Finish(t)
+	if r.ReplayCold() {
+		return
+	}
 	if r.Replay != "" {
 		var c Case
 		if err := r.LoadReplay(&c); err != nil {
@@ -468,6 +483,54 @@ func TestCheck(t *testing.T) {
 					emit(base + "0000")
 					emit(base + base[len(base)-36:])
 					emit("")
+					// the four hyphens redistributed: every way of placing four hyphens into the gaps of the 32 digits that keeps the
+					// length (all multisets over the four group boundaries, and single hyphens moved to arbitrary gaps)
+					{
+						off := len(base) - 36
+						digits := strings.ReplaceAll(base[off:], "-", "")
+						bounds := []int{8, 12, 16, 20}
+						var place func(start, left int, counts [4]int)
+						place = func(start, left int, counts [4]int) {
+							if start == 3 {
+								counts[3] = left
+								var b strings.Builder
+								b.WriteString(base[:off])
+								for i := 0; i < 32; i++ {
+									for k, bd := range bounds {
+										if i == bd {
+											b.WriteString(strings.Repeat("-", counts[k]))
+										}
+									}
+									b.WriteByte(digits[i])
+								}
+								emit(b.String())
+								return
+							}
+							for n := 0; n <= left; n++ {
+								counts[start] = n
+								place(start+1, left-n, counts)
+							}
+						}
+						place(0, 4, [4]int{})
+						for gap := 1; gap < 32; gap++ { // one hyphen taken from its place and put into another gap
+							for _, from := range bounds {
+								var b strings.Builder
+								b.WriteString(base[:off])
+								for i := 0; i < 32; i++ {
+									if i == gap {
+										b.WriteByte('-')
+									}
+									for _, bd := range bounds {
+										if i == bd && bd != from {
+											b.WriteByte('-')
+										}
+									}
+									b.WriteByte(digits[i])
+								}
+								emit(b.String())
+							}
+						}
+					}
 					// hyphen moved by one, two hyphens swapped with neighbours
 					for _, hp := range []int{8, 13, 18, 23} {
 						off := len(base) - 36
@@ -483,6 +546,15 @@ func TestCheck(t *testing.T) {
 		})
 	}
 	r.Sampled()
+
+	r.Phase(fmt.Sprintf("E: %d cold-start scenarios (which parser call comes first in a fresh process)", len(coldScenarios)), func() {
+		r.Serial(func(w *vkit.W) {
+			for _, sc := range coldScenarios {
+				r.RunCold(w, sc, false)
+				w.EvalRandom(vkit.Hash64("cold", sc), true)
+			}
+		})
+	})
 
 	r.Phase("D: rapid IDs and edited texts", func() {
 		r.Rapid(t, "rapid-uuid", 0, r.Pick(30000, 1000000), func(rt *rapid.T, w *vkit.W) vkit.RapidCase {
